@@ -112,7 +112,7 @@ def translator_error_concerns(prop, item, closure=None):
     return False
 
 
-def lean_build(prop, broken, info, extra_targets=()):
+def lean_build(prop, broken, info, extra_targets=(), tier="quick"):
     """translate + lake build of the property's modules + audit. Appends to `broken`."""
     import translate
     with Lock(LEAN / ".build.lock"):
@@ -170,6 +170,12 @@ def lean_build(prop, broken, info, extra_targets=()):
         hits = grep_forbidden()
         if hits:
             broken.append({"kind": "audit", "name": "forbidden-constructs", "detail": hits[:10]})
+        if tier == "thorough":
+            # second opinion: the toolchain's independent re-checker replays the compiled module (and its imports) in a fresh kernel
+            rc, out = sh(["lake", "env", "leanchecker", f"SspModel.Props.{prop}"], cwd=LEAN, timeout=3000)
+            info["leanchecker"] = "ok" if rc == 0 else out[-500:]
+            if rc != 0:
+                broken.append({"kind": "audit", "name": "leanchecker", "detail": out[-1500:]})
         info["audit_s"] = round(time.time() - t0, 2)
 
 
@@ -228,7 +234,7 @@ def main():
                 extra, terrs = mod.lean_targets(ctx)
                 for e in terrs:
                     broken.append({"kind": "translator", "name": e["item"], "detail": e["error"]})
-            lean_build(prop, broken, info, extra)
+            lean_build(prop, broken, info, extra, tier=ctx.tier)
         except subprocess.TimeoutExpired:
             print("INFRASTRUCTURE: lean build timed out"); sys.exit(2)
     # ---- R correspondence
